@@ -240,6 +240,69 @@ def _num2(a, b):
     raise EngineLimit(f"sort mismatch {a.sort()} / {b.sort()}")
 
 
+# ------------------------------------------------------------------------------------------------
+# extended-real multiplication: log densities / weights of abstract generative functions may be -inf, and
+# 0 * -inf is NaN in floating point.  A product with a factor that mentions such a value (and no non-zero
+# numeric literal factor) equals the real product only when those values are finite.
+
+DENSITY_PREFIXES = ("D_", "GenW_", "P_", "LP_")
+IsFinite = z3.Function("IsFinite", z3.RealSort(), z3.BoolSort())
+NanMul = z3.Function("NanMul", z3.RealSort(), z3.RealSort(), z3.RealSort())
+_dens_memo = {}
+
+
+def _density_apps(e):
+    k = e.get_id()
+    r = _dens_memo.get(k)
+    if r is not None:
+        return r[1]
+    out = {}
+    if z3.is_app(e) and e.decl().kind() == z3.Z3_OP_UNINTERPRETED and e.decl().name().startswith(DENSITY_PREFIXES) and e.sort() == z3.RealSort():
+        out[k] = e
+    elif z3.is_app(e):
+        for c in e.children():
+            out.update(_density_apps(c))
+    elif z3.is_quantifier(e):
+        out.update(_density_apps(e.body()))
+    if len(_dens_memo) > 200000:
+        _dens_memo.clear()
+    _dens_memo[k] = (e, out)  # keep e alive so the id is not reused
+    return out
+
+
+def _nonzero_literal(e):
+    e = z3.simplify(e) if not z3.is_rational_value(e) and not z3.is_int_value(e) else e
+    if z3.is_int_value(e):
+        return e.as_long() != 0
+    if z3.is_rational_value(e):
+        return e.numerator_as_long() != 0
+    return False
+
+
+def ext_mul(a, b):
+    try:
+        a, b = _num2(a, b)
+    except EngineLimit:
+        return a * b
+    if a.sort() != z3.RealSort():
+        return a * b
+    apps = {}
+    apps.update(_density_apps(a))
+    apps.update(_density_apps(b))
+    if not apps or _nonzero_literal(a) or _nonzero_literal(b):
+        return a * b
+    if any(z3.is_var(t) or _has_var(t) for t in apps.values()):
+        return a * b  # under a binder: the guard cannot be stated outside; treated as the real product
+    Assumed.note("A-EXTREAL: a product whose factors mention a log density / weight of an abstract generative function equals the real product when those values are finite and is unconstrained (NaN) otherwise; sums and selects of such values are modelled in real arithmetic")
+    return z3.If(z3.And(*[IsFinite(t) for t in apps.values()]), a * b, NanMul(a, b))
+
+
+def _has_var(e):
+    if z3.is_var(e):
+        return True
+    return any(_has_var(c) for c in e.children())
+
+
 class Sym:
     """Scalar symbolic proxy."""
 
@@ -315,10 +378,10 @@ class Sym:
         return self._bin(o, lambda a, b: a - b, True)
 
     def __mul__(self, o):
-        return self._bin(o, lambda a, b: a * b)
+        return self._bin(o, ext_mul)
 
     def __rmul__(self, o):
-        return self._bin(o, lambda a, b: a * b, True)
+        return self._bin(o, ext_mul, True)
 
     def __truediv__(self, o):
         def div(a, b):
